@@ -1,6 +1,7 @@
 import Logrange.Proofs.Tags
 import Logrange.Proofs.Quote
 import Logrange.Proofs.FieldsKV
+import Logrange.Proofs.FieldsRT
 /-!
 # C08 — Tag lines and field lists the system emits parse back to the same values
 
@@ -17,7 +18,7 @@ given only that `\n` is not printable), and the harness evaluates it on the real
 -/
 namespace Logrange.Props.C08
 open Go Logrange.Quote Logrange.KV Logrange.Tags Logrange.FieldsKV Logrange.Proofs.KV Logrange.Proofs.Tags
-  Logrange.Proofs.FieldsKV
+  Logrange.Proofs.FieldsKV Logrange.Proofs.FieldsRT
 
 /-! ## The statements at full strength -/
 
@@ -111,6 +112,42 @@ theorem fromKV_decodes (t : Bytes) (items : List Bytes) (h : fromKVItems t = som
   exact decode_encode items (fromKVItems_items_le field_limit_facts.2.1 field_limit_facts.2.2 t items h) _
     (encodeItems_length items)
 
+/-! ### Fields: emitting and re-reading (on the binary encoding) -/
+
+/-- `AsKVString` on the encoding of a list of pairs prints `name=value` joined by `,`, every value through the
+regenerated trigger (`encField`): never a panic on well-formed fields. -/
+theorem askv_prints_pairs (ps : List (Bytes × Bytes)) (hlen : ∀ p ∈ ps, p.1.length ≤ 255 ∧ p.2.length ≤ 255) :
+    asKV (encodeItems (ps.flatMap (fun p => [p.1, p.2]))) = .ok (kvText ps) :=
+  asKV_encode ps hlen
+
+/-- **Fields round trip** (analogue of `tags_roundtrip_partial`): for every accepted field text whose result is in
+the class `safeF` (it decodes into pairs that `kvstring` reads back as printed, and no printed piece exceeds the
+limit), `AsKVString` succeeds and `NewFieldsFromKVString` of the emitted text gives back exactly the same bytes. -/
+theorem fields_roundtrip_partial (t f : Bytes) (_h : fromKV t = some f) (hs : safeF f = true) :
+    ∃ kv, asKV f = .ok kv ∧ fromKV kv = some f :=
+  fields_roundtrip_safeF f hs
+
+/-- the same on the decoded pieces: the emitted text is `kvText` of the pairs and parses back to the pieces -/
+theorem fields_roundtrip_items (items : List Bytes) (hev : items.length % 2 = 0)
+    (hs : safeFields (pairsOf items) = true) :
+    asKV (encodeItems items) = .ok (kvText (pairsOf items)) ∧
+    fromKV (kvText (pairsOf items)) = some (encodeItems items) :=
+  fields_roundtrip_core items hev hs
+
+/-- **Emitting fields is deterministic and independent of the spelling**: `AsKVString` is a function of the stored
+bytes, and two accepted texts that decode to the same pieces store the same bytes — hence print the same text. -/
+theorem fields_emit_independent_of_spelling (t1 t2 : Bytes) (items : List Bytes)
+    (h1 : fromKVItems t1 = some items) (h2 : fromKVItems t2 = some items) :
+    fromKV t1 = fromKV t2 ∧ (fromKV t1).map asKV = (fromKV t2).map asKV := by
+  simp [fromKV, h1, h2]
+
+/-- **Pipe provenance**: for an accepted tag text whose set is Safe and fits fields (every name/value/printed value at
+most 255 bytes — F08d's class excluded — and no name starting with a quote — F08c's class excluded),
+`field.Parse(line)` — what `pipe.worker` attaches to piped events — lists exactly the set's names and values. -/
+theorem provenance_fields_partial (t : Bytes) (m : Map) (h : parse t = some m) (hs : safe m = true)
+    (hf : fitsFields m = true) : fromKVItems (line m) = some (m.flatMap (fun p => [p.1, p.2])) :=
+  provenance_core m (parse_WF t m h) hs hf
+
 /-- the quoting trigger of `tagMap.line()` regenerated from the source is the one the class of finding F08 was
 written for (empty, or contains `=` or `,`): a changed trigger breaks this obligation -/
 theorem quote_trigger_pinned (v : Bytes) : needsQuote v = needsQuotePinned v := by
@@ -185,6 +222,13 @@ theorem cex_provenance_quoted_name :
     parse [34,113,34,61,118] = some [([34,113,34],[118])] ∧ line [([34,113,34],[118])] = [34,113,34,61,118] ∧
     fromKVItems [34,113,34,61,118] = some [[113],[118]] := by decide +kernel
 
+/-- F08d: a tag value of 256 bytes (`long=<256 × v>`): the tag parser reads the line back, the field parser rejects it
+(no provenance fields at all) -/
+def f08dSet : Map := [([108,111,110,103], List.replicate 256 118)]
+
+theorem cex_provenance_long_value :
+    parse (line f08dSet) = some f08dSet ∧ safe f08dSet = true ∧ fromKVItems (line f08dSet) = none := by decide +kernel
+
 theorem provenance_full_false : ¬ provenance_full := by
   intro h
   have := h _ _ cex_provenance_quoted_name.1
@@ -234,5 +278,11 @@ example : parse [99,61,120,34,121,34,122,44,97,61,98] = some [([97],[98]), ([99]
 example : fromKVItems [97,61,98,44,99,61,34,100,34] = some [[97],[98],[99],[100]] := by decide +kernel
 /-- `line_deterministic` on two different iteration orders -/
 example : lineOf [([98],[49]), ([97],[50])] = lineOf [([97],[50]), ([98],[49])] := by decide +kernel
+
+/-- `fields_roundtrip_partial` is not vacuous: `a="x,y",b=,c=x"y"z` is accepted and its result is in the class -/
+example : (fromKV [97,61,34,120,44,121,34,44,98,61,44,99,61,120,34,121,34,122]).map safeF = some true := by decide +kernel
+/-- `provenance_fields_partial` is not vacuous -/
+example : parse [97,61,34,120,44,121,34,44,98,61,49] = some [([97],[120,44,121]), ([98],[49])] ∧
+    safe [([97],[120,44,121]), ([98],[49])] = true ∧ fitsFields [([97],[120,44,121]), ([98],[49])] = true := by decide +kernel
 
 end Logrange.Props.C08
